@@ -70,6 +70,10 @@ func (fr *Frame) applySpec(sp *FuncSpec, fn *ssa.Function, name string, args []V
 	for _, en := range sp.Ensures {
 		t, err := penv.evalBool(en.E)
 		if err != nil {
+			if strings.HasPrefix(err.Error(), "unknown name") {
+				// clause about the callee's own locals (ghost use): proved inside the callee, not usable here
+				continue
+			}
 			u.unsupportedf("ensures %q of %s: %v", en.Text, shortFn(name), err)
 			continue
 		}
@@ -274,15 +278,9 @@ func (fr *Frame) invNames(li *loopInfo, st *State, phi map[*ssa.Phi]Value) map[s
 			}
 		}
 	}
-	// named locals from DebugRefs in blocks dominating the header (later ones win)
-	var doms []*ssa.BasicBlock
-	for _, b := range fr.fn.Blocks {
-		if b != li.header && b.Dominates(li.header) {
-			doms = append(doms, b)
-		}
-	}
-	sort.Slice(doms, func(i, j int) bool { return doms[i].Dominates(doms[j]) })
-	for _, b := range doms {
+	doms := fr.localNames(li.header, false, st, names)
+	_ = sort.Strings
+	for _, b := range doms[:0] {
 		for _, ins := range b.Instrs {
 			dr, ok := ins.(*ssa.DebugRef)
 			if !ok {
@@ -619,4 +617,45 @@ func phiLabel(p *ssa.Phi) string {
 // inv2loop parses an optional "@N" loop ordinal prefix; not used by default.
 func inv2loop(text string) (int, bool) {
 	return 0, false
+}
+
+// localNames adds named source locals visible at block `at` (DebugRefs in dominating blocks, later
+// ones win; with inclusive also those of `at` itself) to names and returns the dominating blocks.
+func (fr *Frame) localNames(at *ssa.BasicBlock, inclusive bool, st *State, names map[string]SVal) []*ssa.BasicBlock {
+	u := fr.u
+	var doms []*ssa.BasicBlock
+	for _, b := range fr.fn.Blocks {
+		if (b != at || inclusive) && b.Dominates(at) {
+			doms = append(doms, b)
+		}
+	}
+	sort.Slice(doms, func(i, j int) bool { return doms[i] != doms[j] && doms[i].Dominates(doms[j]) })
+	for _, b := range doms {
+		for _, ins := range b.Instrs {
+			dr, ok := ins.(*ssa.DebugRef)
+			if !ok {
+				continue
+			}
+			id := identOf(dr)
+			if id == "" {
+				continue
+			}
+			v, have := fr.env[dr.X]
+			if !have {
+				if _, isC := dr.X.(*ssa.Const); isC {
+					v = fr.val(dr.X)
+				} else {
+					continue
+				}
+			}
+			if dr.IsAddr {
+				if pv, ok := v.(PtrV); ok {
+					names[id] = SVal{V: u.loadNoAssume(st, pv), T: dr.X.Type().(*types.Pointer).Elem()}
+				}
+			} else {
+				names[id] = SVal{V: v, T: dr.X.Type()}
+			}
+		}
+	}
+	return doms
 }
